@@ -3,7 +3,7 @@ from ..models import make_interp
 from ..tmplcheck import family_results, report
 from ._parser import table_check
 
-FLOORS = {"C06.D1.deref-shape": 40, "C06.D.prop-passthrough": 80, "C06.D.field-verbatim": 60, "C06.D1.normaliser-rows": 30}
+FLOORS = {"C06.Q.searched-stream-is-this-operations": 2, "C06.D1.deref-shape": 40, "C06.D.prop-passthrough": 80, "C06.D.field-verbatim": 60, "C06.D1.normaliser-rows": 30}
 
 
 def run(ctx) -> None:
@@ -41,3 +41,6 @@ def run(ctx) -> None:
     from ..streamshapes import witnesses
     if ctx.tier == "thorough" or ('deref',):
         witnesses(ctx, _mkw(ctx.p), "C06.W.canonical-witness-is-found", tags=('deref',) if ctx.tier != "thorough" or "C06" != "C07" else ())
+    # Q: the regex is searched in the stream of this operation's own listing (nothing carried over from an earlier operation)
+    from ._matchrules import stream_per_run
+    stream_per_run(ctx, "C06.Q.searched-stream-is-this-operations")
